@@ -13,7 +13,7 @@ RULE = (
     "non-contiguous ids, tomogram numbers 1..999, positions/shifts of any sign, all rotation classes incl. gimbal lock "
     "and non-canonical ranges, column permutation, non-default row labels) x version {3.0, 3.1, 4.0} x pixel size "
     "0.3..20 x name formats built from the documented patterns (directories with digits, $xxx / $yyyy padding, empty "
-    "formats) x optics block on/off x in memory (create_relion_df) / through a STAR file (write_out, emmotl2relion), "
+    "formats) x optics block on/off x in memory (create_relion_df) / through a STAR file (write_out, emmotl2relion, stopgap2relion from a harness-written STOPGAP file), "
     "then import back (RelionMotl(frame), RelionMotl(path), relion2emmotl). Import domain: RELION STAR texts and frames "
     "produced by the harness' own writer with rlnCoordinate, rlnAngle*, rlnOrigin{X,Y,Z} (px, 3.0) or rlnOrigin*Angst "
     "(>= 3.1), class, names, rlnRandomSubset absent / single-valued / two-valued, pixel size via column, optics block "
@@ -50,7 +50,7 @@ def strategy(tier):
         "tomo_fmt": st.integers(0, len(TOMO_FORMATS) - 1),
         "sub_fmt": st.integers(0, 3),
         "optics": st.booleans(),
-        "path": st.sampled_from(["memory", "write_out", "emmotl2relion"]),
+        "path": st.sampled_from(["memory", "write_out", "emmotl2relion", "emmotl2relion", "stopgap2relion"]),
         "back": st.sampled_from(["class", "relion2emmotl"]),
         "back_version": st.sampled_from(["given", "detect"]),
     })
@@ -66,7 +66,7 @@ def strategy(tier):
         "first_subset": st.sampled_from([1, 2]),
         "names": st.sampled_from(["formatted", "numeric"]),
         "dup_ids": st.integers(0, 4).map(lambda v: v == 0),
-        "via": st.sampled_from(["file", "file", "frame"]),
+        "via": st.sampled_from(["file", "file", "frame", "relion2stopgap"]),
         "give_version": st.booleans(),
         "tomo_fmt": st.integers(1, len(TOMO_FORMATS) - 1),
         "sub_fmt": st.integers(1, 3),
@@ -303,6 +303,25 @@ def run_export(case, out):
             if not ok:
                 return
             ok, _ = call(out, "write_out", lambda: m.write_out(star, write_optics=case["optics"] and v >= 3.1, tomo_format=tf, subtomo_format=sf))
+        elif path == "stopgap2relion":
+            # the list arrives as a STOPGAP STAR file written by the harness (independent of cryoCAT's writer)
+            sgc = ["motl_idx", "tomo_num", "object", "subtomo_num", "halfset", "orig_x", "orig_y", "orig_z", "score", "x_shift", "y_shift", "z_shift", "phi", "psi", "the", "class"]
+            emk = {"tomo_num": "tomo_id", "object": "object_id", "subtomo_num": "subtomo_id", "orig_x": "x", "orig_y": "y", "orig_z": "z", "score": "score",
+                   "x_shift": "shift_x", "y_shift": "shift_y", "z_shift": "shift_z", "phi": "phi", "psi": "psi", "the": "theta", "class": "class"}
+            with open("in_sg.star", "w") as f:
+                f.write("\ndata_stopgap_motivelist\n\nloop_\n" + "".join(f"_{c_}\n" for c_ in sgc) + "\n")
+                for i in range(n):
+                    vals = []
+                    for c_ in sgc:
+                        if c_ == "motl_idx":
+                            vals.append(str(i + 1))
+                        elif c_ == "halfset":
+                            vals.append("A" if int(a[i, IX["subtomo_id"]]) % 2 == 0 else "B")
+                        else:
+                            vals.append(repr(float(a[i, IX[emk[c_]]])))
+                    f.write(" ".join(vals) + "\n")
+            ok, m = call(out, "stopgap2relion", lambda: cryomotl.stopgap2relion("in_sg.star", output_motl_path=star, tomo_format=tf, subtomo_format=sf,
+                                                                                 relion_version=v, pixel_size=px, binning=1.0, write_optics=case["optics"] and v >= 3.1))
         else:
             ok, m = call(out, "emmotl2relion", lambda: cryomotl.emmotl2relion(df0.copy(), output_motl_path=star, tomo_format=tf, subtomo_format=sf,
                                                                                relion_version=v, pixel_size=px, binning=1.0, write_optics=case["optics"] and v >= 3.1))
@@ -412,7 +431,28 @@ def run_import(case, out):
             f.write(f"\n{spec}\n\nloop_\n" + "".join(f"_{c} #{i + 1}\n" for i, c in enumerate(order)))
             for i in range(n):
                 f.write("  ".join(repr(d[c][i]) if not isinstance(d[c][i], str) else d[c][i] for c in order) + "\n")
-        ok, m = call(out, "RelionMotl(path)", lambda: cryomotl.RelionMotl("in.star", **kw))
+        if case["via"] == "relion2stopgap":
+            ok, m = call(out, "relion2stopgap", lambda: cryomotl.relion2stopgap("in.star", output_motl_path="conv_sg.star"))
+            if ok:
+                # the file written for STOPGAP must carry the imported pose under STOPGAP's names
+                try:
+                    sgb = oracle.star_tokenize(open("conv_sg.star", newline="").read())[0]
+                    sgcols = tokens_to_cols(sgb)
+                    import pandas as _pd
+                    back = _pd.DataFrame({"x": sgcols["orig_x"], "y": sgcols["orig_y"], "z": sgcols["orig_z"], "shift_x": sgcols["x_shift"], "shift_y": sgcols["y_shift"],
+                                          "shift_z": sgcols["z_shift"], "phi": sgcols["phi"], "theta": sgcols["the"], "psi": sgcols["psi"], "tomo_id": sgcols["tomo_num"],
+                                          "class": sgcols["class"], "geom3": [0] * len(sgb["rows"]), "subtomo_id": sgcols["subtomo_num"]}).astype(float)
+                    M_ = M_rln_batch(ang[:, 0], ang[:, 1], ang[:, 2])
+                    shift_ = -origin / (px if (px_via != "argument") else 1.0) if v >= 3.1 else -origin
+                    exp_ = {"pos": pos, "shift": shift_, "px": px, "R": np.transpose(M_, (0, 2, 1)), "tomo": tomo.tolist(), "cls": cls.tolist(), "subnum": sub.tolist(), "subset": subset}
+                    out.label("relion2stopgap_file")
+                    check_import_table(out, back, "relion2stopgap_file", exp_, 5e-7, 2e-7, check_ids=False)
+                except (ValueError, IndexError, KeyError) as e:
+                    out.fail("relion2stopgap_file:unreadable", repr(e))
+            if px_via == "argument":
+                return  # relion2stopgap offers no pixel-size argument: with the size given only as argument the shifts are not comparable
+        else:
+            ok, m = call(out, "RelionMotl(path)", lambda: cryomotl.RelionMotl("in.star", **kw))
         tolp, tolr = 1e-9, 2e-7
     if not ok:
         return
@@ -420,4 +460,5 @@ def run_import(case, out):
     shift = -origin / px if v >= 3.1 else -origin
     exp = {"pos": pos, "shift": shift, "px": px, "R": np.transpose(M, (0, 2, 1)), "tomo": tomo.tolist(), "cls": cls.tolist(), "subnum": sub.tolist(), "subset": subset}
     check_import_table(out, m.df, "import", exp, tolp, tolr)
-    out.check(float(m.version) == float(v), "import:version_detection", f"{m.version} vs {v}") if not case["give_version"] else None
+    if not case["give_version"] and hasattr(m, "version"):
+        out.check(float(m.version) == float(v), "import:version_detection", f"{m.version} vs {v}")
